@@ -11,6 +11,7 @@ Everything is derived from the current source:
   * the vnaconv_* prototypes of vnaconv.h.
 Oracle: the naming scheme vnaconv_<x>to<y>[n] / vnaconv_<x>tozi[n] of vnaconv(3).
 """
+import re
 from ..core import Finding, RuleResult
 from ..facts import AnalysisBroken
 from ..util import eval_int, CannotEval, access_path
@@ -85,14 +86,36 @@ def run(P, tier="quick"):
             raise AnalysisBroken("conversion_group.%s missing" % need)
 
     # --- how does vnadata_convert decode a code?  group = ..., index = ...
+    # the variables are found by their role: GROUP is the local the dispatch switch (the one whose arms make indirect
+    # calls) switches on; in the arms  FN = <function table>[INDEX]  names the other two
+    GROUP = INDEX = FN = None
+    for sw_ in f.walk():
+        if sw_.k != "SwitchStmt":
+            continue
+        cond_ = None
+        for kid in sw_.kids[:-1]:
+            if kid is not None:
+                cond_ = kid
+        if cond_ is not None and cond_.strip().k == "DeclRefExpr" and cond_.strip().refkind == "local" and \
+                any(m.k == "CallExpr" and m.get("callee_indirect") for m in sw_.walk()):
+            GROUP = cond_.strip().refname
+            for m in sw_.walk():
+                if m.k == "BinaryOperator" and m.op == "=" and m.kids[0].strip().k == "DeclRefExpr":
+                    rhs_ = m.kids[1].strip()
+                    if rhs_.k == "ArraySubscriptExpr" and rhs_.kids[0].strip().k == "DeclRefExpr" and \
+                            rhs_.kids[0].strip().refkind == "global" and rhs_.kids[1].strip().k == "DeclRefExpr":
+                        FN = FN or m.kids[0].strip().refname
+                        INDEX = INDEX or rhs_.kids[1].strip().refname
+    if GROUP is None or INDEX is None or FN is None:
+        raise AnalysisBroken("vnadata_convert: dispatch switch / function-table look-up not found")
     decode = {}
     for n in f.walk():
         if n.k == "BinaryOperator" and n.op == "=" and n.kids[0].strip().k == "DeclRefExpr":
             nm = n.kids[0].strip().refname
-            if nm in ("group", "index") and nm not in decode:
-                decode[nm] = n.kids[1]
-        if n.k == "VarDecl" and n.get("name") in ("group", "index") and n.kids:
-            decode.setdefault(n.get("name"), n.kids[0])
+            if nm in (GROUP, INDEX) and nm not in decode:
+                decode["group" if nm == GROUP else "index"] = n.kids[1]
+        if n.k == "VarDecl" and n.get("name") in (GROUP, INDEX) and n.kids:
+            decode.setdefault("group" if n.get("name") == GROUP else "index", n.kids[0])
     if set(decode) != {"group", "index"}:
         raise AnalysisBroken("vnadata_convert: cannot find group/index decoding")
     # name of the variable holding the table cell
@@ -124,9 +147,9 @@ def run(P, tier="quick"):
             if kid is not None:
                 cond = kid
         t = access_path(cond) if cond is not None else ""
-        if cond is not None and cond.strip().k == "DeclRefExpr" and cond.strip().refname == "group":
+        if cond is not None and cond.strip().k == "DeclRefExpr" and cond.strip().refname == GROUP:
             disp = sw
-        elif "DIM_MASK" in (cond.text() if cond else "") or t.startswith("(group&"):
+        elif "DIM_MASK" in (cond.text() if cond else "") or t.startswith("(%s&" % GROUP):
             dimsw = sw
     if disp is None:
         raise AnalysisBroken("vnadata_convert: dispatch switch(group) not found")
@@ -144,11 +167,11 @@ def run(P, tier="quick"):
         loop = None
         for st in stmts:
             for n in st.walk():
-                if n.k == "BinaryOperator" and n.op == "=" and n.kids[0].strip().refname == "fn":
+                if n.k == "BinaryOperator" and n.op == "=" and n.kids[0].strip().refname == FN:
                     rhs = n.kids[1].strip()
                     if rhs.k == "ArraySubscriptExpr":
                         tname = rhs.kids[0].strip().refname
-                        if rhs.kids[1].strip().refname != "index":
+                        if rhs.kids[1].strip().refname != INDEX:
                             R.violated(Finding("R28", PROPS, FILE, f.name, "arm%#x-index" % v,
                                                "dispatch arm indexes %s with %s, not index" % (tname, rhs.kids[1].text()),
                                                n.line))
@@ -290,6 +313,7 @@ def run(P, tier="quick"):
             R.ok(key)
     R.counts["function_bindings"] = bindings
 
+    Z0_HELPERS = set()
     # --- each dispatch arm's call: in/out/z0/n arguments and loop
     for v, (tname, call, loop) in sorted(arminfo.items()):
         key = "R28|arm%#x-call" % v
@@ -315,6 +339,13 @@ def run(P, tier="quick"):
         inline_z0 = "((INT($0)->vdi_flags&%d)?INT($0)->vdi_z0.vdi_z0_vector_vector[$i]:INT($0)->vdi_z0.vdi_z0_vector)" % PERF
         if (v & cg["Z0_MASK"]) and len(args) == len(want) and args[2].replace(" ", "") == inline_z0:
             args[2] = want[2]
+        elif (v & cg["Z0_MASK"]) and len(args) == len(want):
+            # a static helper of this file called as H(internal(input), findex): its name is free, its shape is checked below
+            m_ = re.match(r"^([A-Za-z_]\w*)\(INT\(\$0\),\$i\)$", args[2].replace(" ", ""))
+            hf = P.func(m_.group(1), FILE) if m_ else None
+            if hf is not None and hf.static:
+                Z0_HELPERS.add(m_.group(1))
+                args[2] = want[2]
         if args != want:
             bad = "arguments are (%s), expected (%s) [$0=input object, $1=output object, $i=frequency index]" % (", ".join(args), ", ".join(want))
         elif lt != "($i<$0->vd_frequencies)" or initv != 0 or inc is None or inc.op != "++":
@@ -327,7 +358,10 @@ def run(P, tier="quick"):
             R.ok(key)
 
     # --- get_fz0_vector: per-frequency vector under the flag, ordinary otherwise
-    gz = P.func("get_fz0_vector", FILE)
+    if len(Z0_HELPERS) > 1:
+        R.violated(Finding("R28", PROPS, FILE, f.name, "z0-helpers", "the dispatch arms select the reference impedances through "
+                           "different helpers: %s" % ", ".join(sorted(Z0_HELPERS)), f.line))
+    gz = P.func(sorted(Z0_HELPERS)[0], FILE) if Z0_HELPERS else None
     ok = False
     if gz is None:
         # the selection is written in line at every call (accepted above in canonical form): nothing more to check
